@@ -288,7 +288,7 @@ def run_session(cells, bodies):
     for c in cells:
         try:
             res = interp.execute(cell_text(c))
-        except AttributeError as e:   # parse.py:p_error on unexpected end of input: MichelsonParserError(None) crashes
+        except Exception as e:   # noqa: BLE001  parse.py:p_error on unexpected end of input: MichelsonParserError(None) crashes
             res = Escaped(e)
         if not any(interp.context is k for k in ctxs):
             ctxs.append(interp.context)
@@ -300,7 +300,7 @@ def run_session(cells, bodies):
         r = [nint(0)] if failed else [nint(1), outs]
         steps.append([r, obs_stack(interp, ctxs), nint(cur), obs_ctx(interp.context, bodies)])
         recs.append({'failed': failed, 'outs': outs, 'stdout': None if failed else list(res.stdout),
-                     'stack': obs_stack(interp, ctxs, with_ctx=False), 'ctx': ctx_fields(interp.context),
+                     'stack': obs_stack(interp, ctxs, with_ctx=False) + [interp.stack.protected], 'ctx': ctx_fields(interp.context),
                      'attached': all(h_ctx_is(interp, x) for x in interp.stack.items),
                      'error': repr(res.error)[:160] if failed else None})
     cur = next(i for i, k in enumerate(ctxs) if k is interp.context)
@@ -334,8 +334,12 @@ def oracle(cells, bodies, recs=None):
             return f'cell {j} of the session without the failing cells fails ({b["error"]}) but succeeded in the full session', recs
         for field, what in (('outs', 'lazy diffs / results'), ('stack', 'stack'), ('stdout', 'stdout'), ('ctx', 'context fields')):
             if a[field] != b[field]:
+                x, y = a[field], b[field]
+                if field == 'ctx':
+                    keys = sorted(k for k in set(x) | set(y) if x.get(k) != y.get(k))
+                    x, y = {k: x.get(k) for k in keys}, {k: y.get(k) for k in keys}
                 return (f'{what} after surviving cell {j} differ between the session with failing cells and the session without them: '
-                        f'{json.dumps(a[field], default=repr)[:300]} vs {json.dumps(b[field], default=repr)[:300]}'), recs
+                        f'{json.dumps(x, default=repr)[:300]} vs {json.dumps(y, default=repr)[:300]}'), recs
     # a failing cell must leave stack and context as they were
     prev = None
     for i, r in enumerate(recs):
@@ -576,6 +580,26 @@ def gen_cell(rng, view):
     return {'code': code, 'braces': rng.random() < 0.3}
 
 
+def gen_commit_cell(rng, view):
+    """a cell that ends in COMMIT whatever the stack holds: keep a storage-typed top if there is one, drop the rest"""
+    st, pty, sty, _ = view
+    code = []
+    if sty is None or pty is None:
+        sty, pty = storage_types(rng), param_types(rng)
+        code += [('storage', sty), ('parameter', pty)]
+    st = list(st)
+    if st and st[0] == sty:
+        for _ in st[1:]:
+            code += [('SWAP',), ('DROP',)]
+        st = [sty]
+    else:
+        code += [('DROP',)] * len(st)
+        st = []
+        code += build(rng, sty, st)
+    code += [('NIL', OPERATION), ('PAIR',), ('COMMIT',)]
+    return {'code': code, 'braces': rng.random() < 0.3}
+
+
 def inject_failure(rng, cell, kind):
     """make the cell fail at a random instruction position"""
     code = list(cell['code'])
@@ -603,18 +627,53 @@ def gen_session(rng, ncells, p_fail):
     from pytezos.michelson.repl import Interpreter
     interp = Interpreter()
     cells, kinds = [], []
-    for _ in range(ncells):
-        cell = gen_cell(rng, live_view(interp))
-        if rng.random() < p_fail:
+    finish = rng.random() < 0.6
+    for j in range(ncells):
+        if finish and j >= ncells - 2 and j > 0:
+            cell = gen_commit_cell(rng, live_view(interp))   # ids handed out after the failures become visible
+        else:
+            cell = gen_cell(rng, live_view(interp))
+        if rng.random() < (p_fail if not (finish and j >= ncells - 2) else p_fail / 3):
             kind = rng.choice(FAIL_KINDS)
             cell, pos = inject_failure(rng, cell, kind)
             kinds.append(f'{kind}@{min(pos, 4)}')
         cells.append(cell)
         try:
             interp.execute(cell_text(cell))
-        except AttributeError:
+        except Exception:  # noqa: BLE001
             pass
     return cells, kinds
+
+
+# cells outside the modelled alphabet, spliced into generated sessions and checked by oracle (B) only:
+# (text, fails?)  — stack-neutral when they succeed, so the surrounding cells keep their meaning
+TZ1 = 'tz1VSUr8wwNhLAzempoch5d6hLRiTh8Cjcjb'
+EXTRA_CELLS = [
+    ('PATCH AMOUNT 100', False), ('PATCH NOW 1234', False), ('PATCH BALANCE 7000', False), (f'PATCH SENDER "{TZ1}"', False),
+    (f'PATCH SOURCE "{TZ1}"', False), ('PATCH CHAIN_ID "NetXdQprcVkpaWU"', False), ('PATCH AMOUNT', False),
+    ('AMOUNT ; DROP', False), ('NOW ; BALANCE ; DROP ; DROP', False), ('DUMP', False), ('PRINT "cell"', False),
+    ('PATCH AMOUNT 5 ; UNIT ; FAILWITH', True), ('PATCH NOW 99 ; PATCH BALANCE 1 ; PUSH int 1 ; CAR', True),
+    (f'PATCH SENDER "{TZ1}" ; DROP ; DROP ; DROP ; DROP ; DROP ; DROP ; DROP ; DROP ; DROP ; DROP ; DROP ; DROP', True),
+    ('PATCH FOO 1', True), ('PATCH NOW "not a date"', True),
+    ('PUSH int 0 ; DIP { UNIT ; FAILWITH }', True), ('PUSH int 0 ; PUSH int 1 ; DIP 2 { PUSH nat 1 ; PUSH string "a" ; ADD }', True),
+    ('PUSH int 0 ; DIP { EMPTY_BIG_MAP string int ; DROP ; DROP ; DROP ; DROP ; DROP ; DROP ; DROP ; DROP ; DROP ; DROP ; DROP }', True),
+    ('PUSH int 0 ; DIP { PUSH int 1 } ; DROP ; DROP', False),
+    ('PUSH bool True ; IF { UNIT ; FAILWITH } { }', True), ('PUSH bool False ; IF { UNIT ; FAILWITH } { }', False),
+    ('PUSH nat 300 ; PUSH nat 1 ; LSL', True), ('PUSH int 0 ; PUSH int 1 ; EDIV ; IF_NONE { UNIT ; FAILWITH } { DROP }', True),
+    ('PUSH mutez 1 ; PUSH mutez 2 ; SWAP ; SUB_MUTEZ ; IF_NONE { UNIT ; FAILWITH } { DROP }', True),
+    ('EMPTY_BIG_MAP nat nat ; PUSH nat 1 ; SOME ; PUSH nat 1 ; UPDATE ; DIP { UNIT } ; PUSH (option int) None ; IF_NONE { FAILWITH } { DROP }', True),
+    ('DROP_ALL ; UNIT ; FAILWITH', True), ('PUSH (list int) { 1 ; 2 } ; ITER { DROP ; UNIT ; FAILWITH }', True),
+    ('PUSH (list int) { 1 ; 2 } ; MAP { PUSH int 1 ; ADD } ; DROP', False),
+    ('LAMBDA int int { UNIT ; FAILWITH } ; PUSH int 1 ; EXEC', True),
+]
+
+
+def extend_session(rng, cells):
+    out = list(cells)
+    for _ in range(rng.randrange(1, 4)):
+        text, _fails = rng.choice(EXTRA_CELLS)
+        out.insert(rng.randrange(0, len(out) + 1), {'text': text})
+    return out
 
 
 def bodies_of(cells):
@@ -755,7 +814,7 @@ def run(ctx: lib.Ctx) -> None:
         why, _ = oracle(cells, bodies, recs)
         texts = [cell_text(c) for c in cells]
         nfail = sum(r['failed'] for r in recs)
-        bm_at_fail = any(r['failed'] and any(it[2] for it in r['stack']) for r in recs)
+        bm_at_fail = any(r['failed'] and any(it[2] for it in r['stack'][:-1]) for r in recs)
         for k in kinds:
             ctx.dist['fail:' + k.split('@')[0]] += 1
             if '@' in k:
@@ -772,6 +831,27 @@ def run(ctx: lib.Ctx) -> None:
                           {'cells': texts, 'failed_cells': [i for i, r in enumerate(recs) if r['failed']],
                            'repro': 'from pytezos.michelson.repl import Interpreter; i=Interpreter(); [i.execute(c) for c in cells]; '
                                     'compare with the same loop over the cells not listed in failed_cells'})
+    # second stream, oracle (B) only: the same sessions with cells outside the modelled alphabet spliced in
+    # (PATCH of context fields, failures inside DIP / IF / ITER / EXEC bodies, shifts, DROP_ALL ...)
+    n_ext = 0
+    for cells, kinds in sessions:
+        if kinds and kinds[0] in ('corpus',):
+            continue
+        ext = extend_session(ctx.rng, cells)
+        why, recs = oracle(ext, [])
+        n_ext += 1
+        texts = [cell_text(c) for c in ext]
+        for c, r in zip(ext, recs):
+            if 'text' in c:
+                ctx.dist['extra:' + ('failed' if r['failed'] else 'ok')] += 1
+        ctx.case(('ext', tuple(texts)), nontrivial=any(r['failed'] for r in recs), kind='extended-oracle-only')
+        if why and reported < 3:
+            reported += 1
+            ctx.violation('a failing REPL cell changed the session: ' + why,
+                          {'cells': texts, 'failed_cells': [i for i, r in enumerate(recs) if r['failed']],
+                           'repro': 'from pytezos.michelson.repl import Interpreter; i=Interpreter(); [i.execute(c) for c in cells]; '
+                                    'compare with the same loop over the cells not listed in failed_cells'})
+    ctx.extra['extended_sessions'] = n_ext
     bad = ctx.coq_mismatches('repl', IMPORTS, 'fun x => session_fp Rebind (fst x) (snd x)', 'N.eqb',
                              'list (list minstr) * list cell', 'N', cases, shard=ctx.n(13, 100))
     # witnesses of repaired defects (findings/C22.json "fixed") are replayed on every run: failing again = VIOLATION
